@@ -48,6 +48,17 @@ def programs(tier):
     small["bundle-two-calls"] = ([A], ["u1", "u2"], [("func", "f", [("Signal", "s")], [], B("+", V("s"), I(1))),
                                                ("decl", "Bundle", "bb", ("bundle", [V("a"), ("call", "f", [V("u1")]), ("call", "f", [V("u2")])])),
                                                ("decl", "Bundle", "r", B("*", V("bb"), I(2)))], ["r"])
+    # untyped values that receive their compiler-chosen signal only during LOWERING (a folded constant initialiser, an int
+    # bound to a Signal parameter, a negated value) next to values numbered by the semantic analyser
+    small["lowering-folded"] = ([A], ["u1"], [("decl", "Signal", "s1", B("*", I(2), I(3))),
+                                              ("decl", "Bundle", "bb", ("bundle", [V("a"), V("u1"), V("s1")])),
+                                              ("decl", "Bundle", "r", B("*", V("bb"), I(2)))], ["r"])
+    small["lowering-folded-2"] = ([A], ["u1", "u2"], [("decl", "Signal", "s1", B("+", I(20), I(3))), ("decl", "Signal", "s2", B("-", I(50), I(1))),
+                                                      ("decl", "Bundle", "bb", ("bundle", [V("s2"), V("u1"), V("a"), V("s1"), V("u2")])),
+                                                      ("decl", "Bundle", "r", B("+", V("bb"), I(2)))], ["r"])
+    small["lowering-intarg"] = ([A], ["u1"], [("func", "f", [("Signal", "s")], [], B("+", V("s"), V("a"))),
+                                              ("decl", "Signal", "w1", ("call", "f", [I(30)])),
+                                              ("decl", "Signal", "r", B("+", B("*", V("u1"), I(100)), V("w1")))], ["r"])
     # untyped variables whose NAMES are signal names the program also uses explicitly
     coal = ("decl", "Signal", "kc", ("lit", "coal", I(15)))
     small["named-like-item"] = ([coal], ["coal"], [("decl", "Bundle", "bb", ("bundle", [V("coal"), V("kc")])),
